@@ -129,6 +129,27 @@ def _lt(a, b):
     return a < b
 
 
+def errors_match(engine_errors, res):
+    """same multiset of (type, file, request); every reported line lies on the directive it belongs to (between the
+    include keyword and the end of the token after it) - the property does not fix the line more precisely"""
+    groups = {}
+    for (t, f, line, req), span in zip(res.errors, res.error_spans):
+        groups.setdefault((t, f, req), []).append(span)
+    got = {}
+    for e in engine_errors:
+        got.setdefault((e[0], e[2], e[4]), []).append(e[3])
+    if set(groups) != set(got):
+        return False
+    for k, spans in groups.items():
+        lines = sorted(got[k])
+        if len(lines) != len(spans):
+            return False
+        for ln, (lo, hi) in zip(lines, sorted(spans)):
+            if not (lo <= ln <= hi):
+                return False
+    return True
+
+
 def judge(files, main, rs, rc, part, case):
     res = includes.resolve(files, main)
     problems = []
@@ -140,7 +161,7 @@ def judge(files, main, rs, rc, part, case):
         problems.append("token stream differs: scanner %s, model %s" % ([t[1] for t in body_t][:30], [t[1] for t in res.toks][:30]))
     ge = sorted((e[0], e[2], e[3], e[4]) for e in rs["errors"])
     ee = sorted(res.errors)
-    if ge != ee:
+    if not errors_match(rs["errors"], res):
         problems.append("scan errors (type,file,line,request): scanner %s, model %s" % (ge[:8], ee[:8]))
     for e in rs["errors"]:
         if not e[1]:
